@@ -4,11 +4,14 @@ import (
 	"bytes"
 	"context"
 	"fmt"
+	"io"
 	"sync"
 	"testing"
 	"time"
 
 	goat "github.com/avos-io/goat"
+	"google.golang.org/grpc"
+	"google.golang.org/grpc/metadata"
 	"pgregory.net/rapid"
 	"verifharness/kit"
 )
@@ -869,6 +872,8 @@ type C05Pace struct {
 	// that queues for a mutex stops the virtual clock, so a library that parks envelopes with helper goroutines and timers
 	// shows up there as a stalled case; in real time it shows what the application would see.
 	Real bool `json:"real,omitempty"`
+	// Via: "" = direct connections; "proxy" / "demux" = the kit.World topologies of that name (TestC16Pace, TestC18Pace)
+	Via string `json:"via,omitempty"`
 }
 
 func genC05Pace(t *rapid.T) C05Pace {
@@ -931,7 +936,11 @@ func execC05Pace(t *testing.T, c C05Pace) (v Verdict) {
 			<-sent
 			return nil
 		})
-		w := kit.NewWorld(kit.Topo{Kind: "direct", Serialize: c.Ser, Clients: c.Streams, Stats: c.Stats}, svc, nil, nil)
+		topo := "direct"
+		if c.Via != "" {
+			topo = c.Via
+		}
+		w := kit.NewWorld(kit.Topo{Kind: topo, Serialize: c.Ser, Clients: c.Streams, Stats: c.Stats}, svc, nil, nil)
 		var wg sync.WaitGroup
 		for i := 0; i < c.Streams; i++ {
 			i := i
@@ -998,18 +1007,45 @@ func execC05Pace(t *testing.T, c C05Pace) (v Verdict) {
 		check("caller", i, cgot[i], 0xD0, c.Down, cend[i])
 		check("handler", i, hgot[i], 0xA0, c.Up, hend[i])
 	}
+	topo := "direct"
+	if c.Via != "" {
+		topo = c.Via
+	}
 	maxP := 0
 	for _, p := range append(append([]int{}, c.CPause...), c.HPause...) {
 		if p > maxP {
 			maxP = p
 		}
 	}
-	v.Info = kit.CaseInfo{Labels: []string{"pace", fmt.Sprintf("pace.slow_receiver=%v", maxP >= 11), fmt.Sprintf("pace.conns=%d", c.Streams), fmt.Sprintf("pace.real_time=%v", c.Real)},
+	v.Info = kit.CaseInfo{Labels: []string{"pace", fmt.Sprintf("pace.slow_receiver=%v", maxP >= 11), fmt.Sprintf("pace.conns=%d", c.Streams), fmt.Sprintf("pace.real_time=%v", c.Real), "pace.via=" + topo},
 		NonTrivial: maxP >= 11 && (c.Up >= 3 || c.Down >= 3), Key: fmt.Sprintf("%+v", c), Sample: c}
 	return
 }
 
 func TestC05Pace(t *testing.T) { checkProp(t, "C05", "pace", genC05Pace, execC05Pace) }
+
+// genPaceVia: the pace cases through a proxy or a demux, with pauses of up to three seconds (virtual time), for the
+// properties of those components.
+func genPaceVia(via string) func(t *rapid.T) C05Pace {
+	return func(t *rapid.T) C05Pace {
+		c := genC05Pace(t)
+		c.Via = via
+		if via == "proxy" {
+			// one client only: the proxy drops envelopes once more than 16 are queued for one destination (known finding,
+			// C16), and with a slow server-side receiver everything the clients send queues up for that one destination
+			c.Streams = 1
+		}
+		long := rapid.SampledFrom([]int{0, 20, 700, 1500, 3000})
+		if rapid.Bool().Draw(t, "long_pauses") {
+			c.HPause = rapid.SliceOfN(long, 1, 3).Draw(t, "h_long")
+			c.CPause = rapid.SliceOfN(long, 1, 3).Draw(t, "c_long")
+		}
+		return c
+	}
+}
+
+func TestC16Pace(t *testing.T) { checkProp(t, "C16", "pace", genPaceVia("proxy"), execC05Pace) }
+func TestC18Pace(t *testing.T) { checkProp(t, "C18", "pace", genPaceVia("demux"), execC05Pace) }
 
 // TestC05PaceReal runs the same cases in real time only (see C05Pace.Real).
 func TestC05PaceReal(t *testing.T) {
@@ -1019,3 +1055,122 @@ func TestC05PaceReal(t *testing.T) {
 		return c
 	}, execC05Pace)
 }
+
+// ---- C05 shared metadata objects: what one call's handler sets must not show up in another call --------------
+
+// C05SharedMD: the application keeps one metadata.MD object for its fixed "server info" headers and another one for its
+// fixed trailers, and every handler passes that same object to SetHeader / SetTrailer before adding its per-call values
+// with a second call (several SetHeader calls are merged, as the gRPC API says). Calls run one after the other or a few
+// at a time. Every caller must see the fixed values once and exactly its own per-call values.
+type C05SharedMD struct {
+	Calls []int `json:"calls"` // kind per call
+	Wave  int   `json:"wave"`  // calls in flight together (1..3)
+	Ser   bool  `json:"ser"`
+	Stats bool  `json:"stats,omitempty"`
+}
+
+func genC05SharedMD(t *rapid.T) C05SharedMD {
+	return C05SharedMD{Calls: rapid.SliceOfN(rapid.SampledFrom(allKinds), 2, 8).Draw(t, "calls"), Wave: rapid.IntRange(1, 3).Draw(t, "wave"), Ser: rapid.Bool().Draw(t, "ser"), Stats: rapid.IntRange(0, 3).Draw(t, "stats") == 0}
+}
+
+func execC05SharedMD(t *testing.T, c C05SharedMD) (v Verdict) {
+	n := len(c.Calls)
+	hdrs, trls := make([]metadata.MD, n), make([]metadata.MD, n)
+	ok := make([]bool, n)
+	baseH := metadata.Pairs("server", "goat-app", "build", "42")
+	baseT := metadata.Pairs("served-by", "node-1")
+	res := kit.Bubble(t, func() {
+		svc := kit.NewSvc()
+		svc.Unary("u", func(ctx context.Context, req []byte) ([]byte, error) {
+			_ = grpc.SetHeader(ctx, baseH)
+			_ = grpc.SetHeader(ctx, metadata.Pairs("call", fmt.Sprint(req[0])))
+			_ = grpc.SetTrailer(ctx, baseT)
+			_ = grpc.SetTrailer(ctx, metadata.Pairs("call-t", fmt.Sprint(req[0])))
+			return req, nil
+		})
+		svc.Stream("s", true, true, func(s grpcServerStream) error {
+			b, err := kit.RecvBytes(s)
+			if err != nil || len(b) != 1 {
+				return err
+			}
+			_ = s.SetHeader(baseH)
+			_ = s.SetHeader(metadata.Pairs("call", fmt.Sprint(b[0])))
+			s.SetTrailer(baseT)
+			s.SetTrailer(metadata.Pairs("call-t", fmt.Sprint(b[0])))
+			return kit.SendBytes(s, b)
+		})
+		w := kit.NewWorld(kit.Topo{Kind: "direct", Serialize: c.Ser, Clients: 1, Stats: c.Stats}, svc, nil, nil)
+		for lo := 0; lo < n; lo += c.Wave {
+			var wg sync.WaitGroup
+			for i := lo; i < lo+c.Wave && i < n; i++ {
+				i := i
+				wg.Add(1)
+				go func() {
+					defer wg.Done()
+					ctx, cancel := context.WithTimeout(context.Background(), time.Hour)
+					defer cancel()
+					if c.Calls[i] == kit.KindUnary {
+						// (goat's Invoke takes no call options, so a unary caller cannot look at headers and trailers; the unary
+						// handlers still go through the same motions with the shared objects)
+						out, err := kit.Invoke(ctx, w.Conn(0), "u", []byte{byte(i)})
+						ok[i] = err == nil && len(out) == 1
+						return
+					}
+					cs, err := w.Conn(0).NewStream(ctx, kit.StreamDescFor(kit.KindBidi), kit.FullMethod("s"))
+					if err != nil {
+						return
+					}
+					_ = kit.SendBytes(cs, []byte{byte(i)})
+					_ = cs.CloseSend()
+					if _, err := kit.RecvBytes(cs); err != nil {
+						return
+					}
+					if _, err := kit.RecvBytes(cs); err != io.EOF {
+						return
+					}
+					h, _ := cs.Header()
+					hdrs[i], trls[i], ok[i] = h.Copy(), cs.Trailer().Copy(), true
+				}()
+			}
+			wg.Wait()
+			kit.Settle()
+		}
+		w.Shutdown()
+		kit.Settle()
+	})
+	if res.Panic != nil {
+		v.failf("panic: %v\n%s", res.Panic, res.Stack)
+	}
+	one := func(md metadata.MD, k, want string) string {
+		if vs := md.Get(k); len(vs) != 1 || vs[0] != want {
+			return fmt.Sprintf("%q = %v, want [%s]", k, vs, want)
+		}
+		return ""
+	}
+	for i := range c.Calls {
+		if !ok[i] {
+			v.failf("call %d did not complete", i)
+			continue
+		}
+		if c.Calls[i] == kit.KindUnary {
+			continue
+		}
+		for _, msg := range []string{one(hdrs[i], "call", fmt.Sprint(i)), one(hdrs[i], "server", "goat-app"), one(hdrs[i], "build", "42")} {
+			if msg != "" {
+				v.failf("call %d (%s): header %s - values set for another call, or the application's shared header object was changed", i, kit.KindNames[c.Calls[i]], msg)
+			}
+		}
+		for _, msg := range []string{one(trls[i], "call-t", fmt.Sprint(i)), one(trls[i], "served-by", "node-1")} {
+			if msg != "" {
+				v.failf("call %d (%s): trailer %s - values set for another call, or the application's shared trailer object was changed", i, kit.KindNames[c.Calls[i]], msg)
+			}
+		}
+	}
+	if len(baseH) != 2 || len(baseT) != 1 {
+		v.failf("the application's shared metadata objects were modified by the library: headers %v, trailers %v", baseH, baseT)
+	}
+	v.Info = kit.CaseInfo{Labels: []string{"shared-md", fmt.Sprintf("shared-md.wave=%d", c.Wave)}, NonTrivial: true, Key: fmt.Sprintf("%+v", c), Sample: c}
+	return
+}
+
+func TestC05SharedMD(t *testing.T) { checkProp(t, "C05", "shared-md", genC05SharedMD, execC05SharedMD) }
